@@ -97,7 +97,7 @@ package scheduler
 // a confirmed placeholder swap: the replacement is only dereferenced when there is one; the queue is decreased by
 // what left the nodes; the node swap gets real - placeholder as delta
 //@ func (pc *PartitionContext) removeAllocation(release *si.AllocationRelease) (released []*objects.Allocation, confirmed *objects.Allocation)
-//@   props C06 C13 C03
+//@   props C06 C13 C03 C12
 //@   sweep
 //@   mode nopanic=on
 //@   holds pc != nil
@@ -111,6 +111,10 @@ package scheduler
 //@   loop 1: invariant total != nil && total.Resources != nil && (forall i int :: 0 <= i && i < len(released) && released[i] != nil ==> released[i].allocatedResource != total && (released[i].allocatedResource != nil ==> released[i].allocatedResource.Resources != total.Resources))
 //@   loop 1: invariant forall i int :: 0 <= i && i < len(released) && released[i] != nil && released[i].release != nil ==> released[i].release.allocatedResource != total && (released[i].release.allocatedResource != nil ==> released[i].release.allocatedResource.Resources != total.Resources)
 //@   at[nodeexists] call scheduler.PartitionContext.GetNode#1 after: assume ret == nil || !fresh(ret)
+//@   loop 1: exhaustive
+//@   loop 1: each node != nil && !(release.TerminationType == 4 && alloc.release != nil) && iter(node.allocations[alloc.allocationKey]) != nil ==> (forall t Key :: rv(total, t) == clamp64(iter(rv(total, t)) + rv(alloc.allocatedResource, t)))
+//@   loop 1: each node != nil && !(release.TerminationType == 4 && alloc.release != nil) ==> node.allocations[alloc.allocationKey] == nil
+//@   loop 1: each node != nil && release.TerminationType == 4 && alloc.release != nil ==> (forall t Key :: clamp64(rv(alloc.release.allocatedResource, t) - rv(alloc.allocatedResource, t)) <= 0 ==> rv(total, t) == clamp64(iter(rv(total, t)) - clamp64(rv(alloc.release.allocatedResource, t) - rv(alloc.allocatedResource, t))))
 //@   at[swapcredit:C03,C06] call objects.Allocation.IsPreempted#1: assert release.TerminationType == 4 && alloc.release != nil ==> (forall t Key :: clamp64(rv(alloc.release.allocatedResource, t) - rv(alloc.allocatedResource, t)) <= 0 ==> rv(total, t) == clamp64(iter(rv(total, t)) - clamp64(rv(alloc.release.allocatedResource, t) - rv(alloc.allocatedResource, t))))
 //@   at[removecredit:C03,C13] call objects.Allocation.IsPreempted#1: assert !(release.TerminationType == 4 && alloc.release != nil) && iter(node.allocations[alloc.allocationKey]) != nil ==> (forall t Key :: rv(total, t) == clamp64(iter(rv(total, t)) + rv(alloc.allocatedResource, t)))
 
@@ -290,3 +294,28 @@ package scheduler
 //@   at[inputsize] call resources.NewResourceFromProto#1 after: assume mag(ret)
 //@   at[present:C13,C02] call objects.Node.SetCapacity#1: assert arg0 == node && nodeInfo.SchedulableResource != nil && nodeInfo.Action == 2
 //@   at[capacitychange] call scheduler.PartitionContext.updatePartitionResource#1: assert arg0 == partition && ncalls(objects.Node.SetCapacity) == 1 && (arg1 != nil ==> (forall t Key :: rv(arg1, t) == rv(node.totalResource, t) - old(rv(node.totalResource, t)))) && (arg1 == nil ==> (forall t Key :: rv(node.totalResource, t) == old(rv(node.totalResource, t))))
+
+// ================================================================ C17 / C04 / C10: registering an application
+
+// an application is registered only in a leaf queue, after placement accepted it, with the partition's terminated
+// callback wired (so that it leaves the partition when it terminates); a refused application leaves no trace in the
+// partition's application map or in any queue
+//@ func (pc *PartitionContext) AddApplication(app *objects.Application) (err error)
+//@   props C17 C04 C10
+//@   sweep
+//@   mode nopanic=off
+//@   at[placedfirst] call placement.AppPlacementManager.PlaceApplication#1: assert arg1 == app && ncalls(scheduler.PartitionContext.getApplication) == 1
+//@   at[leaf] call objects.Application.SetQueue#1: assert arg0 == app && arg1 == queue && queue != nil && queue.isLeaf
+//@   at[wired] call objects.Application.SetTerminatedCallback#1: assert arg0 == app
+//@   at[listed] call objects.Queue.AddApplication#1: assert arg0 == queue && arg1 == app && ncalls(objects.Application.SetQueue) == 1 && ncalls(objects.Application.SetTerminatedCallback) == 1
+//@   ensures[registered] err == nil ==> pc.applications[app.ApplicationID] == app && ncalls(objects.Queue.AddApplication) == 1 && ncalls(placement.AppPlacementManager.PlaceApplication) == 1
+//@   ensures[notrace] err != nil ==> ncalls(objects.Application.SetQueue) == 0 && ncalls(objects.Queue.AddApplication) == 0 && (forall k string :: (k in pc.applications) == old(k in pc.applications))
+
+// a terminated application leaves the queue (UnSetQueue) and the partition's application map, under its own id
+//@ func (pc *PartitionContext) moveTerminatedApp(appID string)
+//@   props C10
+//@   sweep
+//@   mode nopanic=off
+//@   at[unqueue] call objects.Application.UnSetQueue#1: assert arg0 == pc.applications[appID] && arg0 != nil
+//@   holds pc.applications != pc.completedApplications
+//@   ensures[gone] old(pc.applications[appID]) != nil ==> !(appID in pc.applications) && ncalls(objects.Application.UnSetQueue) == 1
